@@ -79,8 +79,9 @@ theorem relz_newBytes {c : Cfg} (hw : c.wipe = true) {m : Mach} (h : RelZ m) : R
     (dryocMlock c m a l).1.rel = m.rel := by
   unfold dryocMlock; split
   · rfl
-  · split
-    · simp only []; split <;> rfl
+  · simp only []; split
+    · split <;> rfl
+    · rfl
     · rfl
 
 theorem relz_plainDrop {c : Cfg} (hw : c.wipe = true) {m : Mach} (h : RelZ m) (v : PVec) :
